@@ -67,7 +67,7 @@ def _path_work(args):
         if opts.get("replay"):
             from . import replay
             hook = replay.model_hook
-        inc = solve.PathSolver(st.facts, set(hard))
+        inc = solve.PathSolver(st.facts, set(hard), opts.get("hints"))
         for ob in st.obligations:
             if ob.kind == "guarded-by":
                 ob.status = "discharged" if z3.is_true(ob.goal) else "failed"
